@@ -416,12 +416,30 @@ def final_open(events):
     return opened
 
 
+def FIXED_DIAG_HISTORIES():
+    """directed histories that every run plays: a program that loads but fails in evaluation, then events on documents inside
+    and outside the program; an error that comes and goes; a closed document whose import is dropped in the same batch"""
+    disk = {n: ts[0] for n, ts in DIAG_TEXTS.items()}
+    ev_fail = DIAG_TEXTS["main.oal"][6]
+    return [
+        (disk, [{"open": "main.oal", "text": ev_fail}, {"refresh": True}, {"open": "other.oal", "text": DIAG_TEXTS["other.oal"][0]}, {"refresh": True}]),
+        (disk, [{"open": "main.oal", "text": ev_fail}, {"refresh": True}, {"open": "other.oal", "text": DIAG_TEXTS["other.oal"][1]}, {"refresh": True},
+                {"close": "other.oal"}, {"refresh": True}]),
+        (disk, [{"open": "main.oal", "text": ev_fail}, {"refresh": True}, {"open": "lib.oal", "text": DIAG_TEXTS["lib.oal"][0]}, {"refresh": True},
+                {"change": "main.oal", "text": DIAG_TEXTS["main.oal"][0]}, {"refresh": True}]),
+        (disk, [{"open": "lib.oal", "text": DIAG_TEXTS["lib.oal"][1]}, {"open": "main.oal", "text": DIAG_TEXTS["main.oal"][0]}, {"refresh": True},
+                {"change": "main.oal", "text": DIAG_TEXTS["main.oal"][2]}, {"close": "lib.oal"}, {"refresh": True}]),
+        (disk, [{"open": "main.oal", "text": DIAG_TEXTS["main.oal"][1]}, {"refresh": True}, {"change": "main.oal", "text": DIAG_TEXTS["main.oal"][0]},
+                {"refresh": True}, {"change": "main.oal", "text": DIAG_TEXTS["main.oal"][3]}, {"refresh": True}]),
+    ]
+
+
 def diag_tie(ctx, fixed=None):
     """Model/Diag.v vs Workspace::diagnostics after every event of a history (same published batch, as a map),
     and the client's final view vs the one of a fresh workspace handed the final texts"""
     n = 360 if ctx.thorough else 30
     reqs, metas = [], []
-    todo = fixed if fixed is not None else [gen_diag_history(ctx.rng)[:2] for _ in range(n)]
+    todo = fixed if fixed is not None else FIXED_DIAG_HISTORIES() + [gen_diag_history(ctx.rng)[:2] for _ in range(n)]
     for i, (disk, events) in enumerate(todo):
         opened = final_open(events)
         for tag, evs in (("h", events), ("f", [{"open": k, "text": t} for k, t in opened.items()] + [{"refresh": True}])):
